@@ -40,7 +40,8 @@ ASSUMPTIONS = [
     "retried",
 ]
 
-COMBOS = {"a": [1, 2, 3], "b": [4, 5]}
+# (given in an order that is not the alphabetical one the sower uses)
+COMBOS = {"b": [4, 5], "a": [1, 2, 3]}
 
 _DRAW_SRC = '''
 def draw_a():
@@ -100,7 +101,7 @@ class Scn:
             self.rkind = "bool"
             bb = next(b for b in range(5, 200) if not xfn.expected(
                 "bool", dict(a=3, b=b)))
-            self.combos = {"a": [1, 2, 3], "b": [4, bb]}
+            self.combos = {"b": [4, bb], "a": [1, 2, 3]}
         self.var_names = "out"
         if name == "runner3":
             self.rkind = "tuple3n"
